@@ -3,7 +3,7 @@ CONSTANTS
   NRs = {1,2,3}
   Ns = {0,1,2,3,4}
   Vals = {0,1}
-  Wts = {0,1,2}
+  Wts = {0,1}
   WDen = 1
   SmpMode = "all"
   SampleSpace <- MCSampleSpace
